@@ -347,6 +347,7 @@ impl AnyVm {
     /// `prog` must stay alive (arena) for as long as the VM.
     pub fn new(kind: Kind, prog: Option<&[u8]>, doff: usize, eoff: usize) -> Result<AnyVm, Outcome> {
         let prog: Option<&'static [u8]> = prog.map(|p| unsafe { stat(p) });
+        crate::guard::guard_byte_allocs(kind == Kind::Fixed);
         let g = guarded(move || -> Result<AnyVm, Error> {
             Ok(match kind {
                 Kind::Mbuff => AnyVm::Mbuff(rbpf::EbpfVmMbuff::new(prog)?),
@@ -355,6 +356,7 @@ impl AnyVm {
                 Kind::NoData => AnyVm::NoData(rbpf::EbpfVmNoData::new(prog)?),
             })
         });
+        crate::guard::guard_byte_allocs(false);
         match g {
             Guarded::Done(Ok(vm)) => Ok(vm),
             Guarded::Done(Err(e)) => Err(Outcome::Err(e.to_string())),
@@ -365,7 +367,8 @@ impl AnyVm {
 
     pub fn set_program(&mut self, prog: &[u8], doff: usize, eoff: usize) -> Outcome {
         let prog: &'static [u8] = unsafe { stat(prog) };
-        conv(
+        crate::guard::guard_byte_allocs(matches!(self, AnyVm::Fixed(_)));
+        let o = conv(
             guarded(|| match self {
                 AnyVm::Mbuff(vm) => vm.set_program(prog),
                 AnyVm::Fixed(vm) => vm.set_program(prog, doff, eoff),
@@ -373,7 +376,9 @@ impl AnyVm {
                 AnyVm::NoData(vm) => vm.set_program(prog),
             }),
             |_| 0,
-        )
+        );
+        crate::guard::guard_byte_allocs(false);
+        o
     }
 
     pub fn set_verifier(&mut self, vid: u8) -> Outcome {
